@@ -54,7 +54,8 @@ def deser_verdict(expect: dict, out: dict, ambig: bool = False, dups_ok: bool = 
         elif (loc, rule) not in got:
             return "errors-missing"
     for g in got:
-        if g not in req and g not in extra:
+        if g not in req and g not in extra and not any(
+                rule == "ANY" and is_prefix(list(loc), list(g[0])) for loc, rule in extra):
             return "errors-spurious"
     if not dups_ok and len(set(got)) != len(got):
         return "errors-duplicate"
